@@ -53,7 +53,7 @@ func c14Program(r *rng) (text, query string, names []string) {
 	case 2:
 		return "", fmt.Sprintf("findall(X-Y, (between(1, %d, X), between(1, %d, Y), X < Y), L), length(L, N), write(N) .", n, n), []string{"L", "N"}
 	case 3:
-		return "", fmt.Sprintf("findall(A, (between(1, %d, I), atom_codes(P, \"%s_\"), atom_number(S, I), atom_concat(P, S, A)), L), write(L) .", n*3, tag), []string{"L"}
+		return "", fmt.Sprintf("findall(A, (between(1, %d, I), atom_codes(P, \"%s_\"), atom_number(S, I), atom_concat(P, S, A)), L), writeq(L) .", n*3, tag), []string{"L"}
 	case 4:
 		return fmt.Sprintf(":- dynamic(cnt/1).\ncnt(0).\nbump :- retract(cnt(N)), M is N + 1, assertz(cnt(M)).\nloop(0) :- !.\nloop(K) :- bump, J is K - 1, loop(J).\nmark(%s).\n", tag),
 			fmt.Sprintf("loop(%d), cnt(N), mark(M), write(N-M) .", n*5), []string{"N", "M"}
@@ -61,7 +61,7 @@ func c14Program(r *rng) (text, query string, names []string) {
 		return "", fmt.Sprintf("length(L, %d), copy_term(L, L2), L = [a|_], setof(X-Y, member(X-Y, [b-1, a-2, c-3, a-1]), S), write(S), functor(T, %s, %d), T =.. U .", n, tag, n), []string{"L", "L2", "S", "T", "U"}
 	case 6:
 		return fmt.Sprintf("q(X) :- member(X, [%s_a, %s_b, %s_c]).\nq(%s_d).\n", tag, tag, tag, tag),
-			"q(X), write(X), nl .", []string{"X"}
+			"q(X), writeq(X), nl, write_canonical(f(X, 'A b', [])), print(- (1)) .", []string{"X"}
 	default:
 		return "p(X, Y) :- catch(Y is X * X, _, Y = err).\n",
 			fmt.Sprintf("findall(Y, (member(X, [1, 2, foo, %d, 4.5]), p(X, Y)), L), msort(L, S), write(S), atom_length(%s_abcdef, K) .", n, tag), []string{"L", "S", "K"}
@@ -132,9 +132,9 @@ func runC14(outDir string, seed int64, tier string) {
 		for i := range progs {
 			t, q, ns := c14Program(r.split())
 			progs[i] = c14prog{t, q, ns}
-			var sink bytes.Buffer
-			alone[i] = c14RunProgram(progs[i], &sink)
 		}
+		// the concurrent run comes first, so that whatever is created or cached on first use
+		// (atoms, variables ...) is created while the interpreters run side by side
 		together := make([]string, k)
 		sinks := make([]bytes.Buffer, k)
 		var wg sync.WaitGroup
@@ -149,6 +149,10 @@ func runC14(outDir string, seed int64, tier string) {
 		}
 		close(startCh)
 		wg.Wait()
+		for i := range progs {
+			var sink bytes.Buffer
+			alone[i] = c14RunProgram(progs[i], &sink)
+		}
 		for i := 0; i < k; i++ {
 			sum.Evaluations++
 			sum.count(fmt.Sprintf("concurrent:%d-interpreters", k))
